@@ -12,6 +12,10 @@
     omitted_eq_explicit    ★  no conflict ⇒ `--flag=<documented default>` anywhere on the command line changes no
                               variable the command reads (any init order, any other options)
     explicit_default_no_effect / explicit_default_differs / conflict_observable   its core, and the converse
+    same_effect ★ / table_same_effect   the clause "same EFFECT" under its explicit hypothesis `ReadsOnly body` (the command
+                              computes what it does from the option variables alone); readsOnly_of_vars (any function of
+                              finitely many reads is such a body); given_not_readsOnly (the hypothesis cannot be dropped:
+                              `Changed` is not a function of the variables — findings F45, F55, table (f))
     aliasRegion, explicit_default_overrides_alias, noAlias_hpre   the region `hpre` excludes (an alias of the option given
                               earlier on the line), the conclusion is false there, and it is empty when no command sees two
                               flags on one variable (Spec `noAliasInCommand`; false today: finding F87, table_noAliasInCommand_partial)
@@ -39,6 +43,11 @@
     writes_all_modelled (table (e) Gen/C19Writes.lean: every post-parse assignment to an option variable is modelled)
   Table (f) Gen/C19Changed.lean (every `Flags().Changed` test in a command body): Glue.changed_all_accounted;
     `gotree repopulate` (fixed by 4cde097): Repopulate.accepts_explicit_default, acceptsPinned_explicit_default_fails
+  Shared I/O glue (Model/C19IO: cmd/root.go openWriteFile, closeWriteFile, readTree; io/utils OpenFile) and table (g)
+    Gen/C19Sentinels.lean (every literal that glue and PersistentPreRun compare an option value with, regenerated):
+    IO.openWrite_default, openWrite_stdout_iff, openWrite_file, closes_iff_file (the two sites agree: Close() exactly when a
+    file was created), openRead_stdin_iff, openRead_default, predictOutput_default/_file, readTree_agrees, readTree_default,
+    formatCases_agree, seedSentinel_agrees, sentinels_check (the models' literals ARE the source's)
   `gotree brlen setrand` (open finding F55 / SetrandMeanRangeGiven): Setrand.meanRange_explicit_default_partial, …_defaults_fails
 -/
 import Gotree.Lemmas.C19
@@ -48,6 +57,8 @@ import Gotree.Model.C19PreRun
 import Gotree.Model.C19Glue
 import Gotree.Gen.C19Writes
 import Gotree.Gen.C19Changed
+import Gotree.Model.C19IO
+import Gotree.Gen.C19Sentinels
 
 namespace Gotree.C19
 
@@ -410,6 +421,52 @@ theorem table_omitted_eq_explicit (regs' : List Reg) (hp : regs'.Perm Gotree.Gen
     ∀ v, reads (atRun regs' (pre ++ (r, r.default) :: post)) v = reads (atRun regs' (pre ++ post)) v :=
   omitted_eq_explicit _ regs' table_noConflict hp r hr pre post hpre
 
+/-! ### "the same EFFECT": a command body that is a function of the option variables -/
+
+/-- the body of a command, as far as its options are concerned, is a function of what it reads from
+    the option variables (and of nothing else about the command line) -/
+def ReadsOnly {β : Type} (body : Store → β) : Prop :=
+  ∀ s s' : Store, (∀ v, reads s v = reads s' v) → body s = body s'
+
+/-- `Flags().Changed`: was the flag on the command line? -/
+def wasGiven (cl : List (Reg × String)) (r : Reg) : Bool := cl.any fun g => decide (g.1 = r)
+
+/-- ★ the clause "same effect" under its explicit hypothesis: whatever a command computes from the
+    option variables alone is the same with an option omitted and with its documented default
+    spelled out (no conflict, any init order, any other options not aliasing it before) -/
+theorem same_effect {β : Type} (body : Store → β) (hb : ReadsOnly body)
+    (regs regs' : List Reg) (h : noConflict regs = true) (hp : regs'.Perm regs)
+    (r : Reg) (hr : r ∈ regs) (pre post : List (Reg × String)) (hpre : ∀ g ∈ pre, g.1.var ≠ r.var) :
+    body (atRun regs' (pre ++ (r, r.default) :: post)) = body (atRun regs' (pre ++ post)) :=
+  hb _ _ (omitted_eq_explicit regs regs' h hp r hr pre post hpre)
+
+/-- … instantiated on the regenerated table -/
+theorem table_same_effect {β : Type} (body : Store → β) (hb : ReadsOnly body)
+    (regs' : List Reg) (hp : regs'.Perm Gotree.Gen.C19Flags.table)
+    (r : Reg) (hr : r ∈ Gotree.Gen.C19Flags.table) (pre post : List (Reg × String)) (hpre : ∀ g ∈ pre, g.1.var ≠ r.var) :
+    body (atRun regs' (pre ++ (r, r.default) :: post)) = body (atRun regs' (pre ++ post)) :=
+  same_effect body hb _ regs' table_noConflict hp r hr pre post hpre
+
+/-- reading one variable, or any function of finitely many reads, is such a body -/
+theorem readsOnly_of_vars {β : Type} (vars : List Nat) (f : List (Option String) → β) :
+    ReadsOnly fun s => f (vars.map (reads s)) := by
+  intro s s' h
+  have : vars.map (reads s) = vars.map (reads s') := List.map_congr_left fun v _ => h v
+  simp only [this]
+
+/-- and the hypothesis cannot be dropped: whether an option was GIVEN is not a function of the
+    variables — the two command lines leave every variable alike and differ in `Changed`
+    (the mechanism of findings F45 and F55, and of every site of table (f)) -/
+theorem given_not_readsOnly (regs : List Reg) (r : Reg) (h : finalValue regs r.var = some r.default) :
+    (∀ v, reads (atRun regs [(r, r.default)]) v = reads (atRun regs []) v) ∧
+    wasGiven [(r, r.default)] r ≠ wasGiven [] r := by
+  refine ⟨fun v => ?_, by simp [wasGiven]⟩
+  have := explicit_default_no_effect regs r h [] [] (by simp) v
+  simpa using this
+
+example : ReadsOnly fun s => (reads s 1, reads s 0) :=
+  readsOnly_of_vars [1, 0] fun l => (l.headD none, (l.drop 1).headD none)
+
 /-! ### pinned variant: F24 as it was before fix 7e6fdde (4-row excerpt of the old table) -/
 
 /-- `cutoff` (variable 0) is bound by `compute consensus --freq-min` (0.5) and by `brlen setmin --length` (0);
@@ -697,5 +754,61 @@ theorem accepts_explicit_default (given : Bool) : accepts given defaultGroups = 
 theorem acceptsPinned_explicit_default_fails : acceptsPinned true defaultGroups = true ∧ acceptsPinned false defaultGroups = false := by decide
 
 end Repopulate
+
+/-! ### what the documented defaults "stdout" of --output and "stdin" of --input mean (Model/C19IO; cmd/root.go
+    openWriteFile / closeWriteFile / readTree, io/utils OpenFile); table (g) Gen/C19Sentinels.lean -/
+
+namespace IO
+
+theorem openWrite_default : openWriteTarget defaultOutput = .stdout ∧ openWriteTarget "-" = .stdout := by decide
+
+theorem openWrite_stdout_iff (f : String) : openWriteTarget f = .stdout ↔ f = "stdout" ∨ f = "-" := by
+  unfold openWriteTarget stdoutNames
+  by_cases h1 : f = "stdout" <;> by_cases h2 : f = "-" <;> simp [h1, h2]
+
+theorem openWrite_file (f : String) (h1 : f ≠ "stdout") (h2 : f ≠ "-") : openWriteTarget f = .file f := by
+  unfold openWriteTarget stdoutNames
+  simp [h1, h2]
+
+theorem closes_iff_file (f : String) : closesFile f = true ↔ openWriteTarget f = .file f := by
+  unfold closesFile keepOpenNames openWriteTarget stdoutNames
+  by_cases h1 : f = "stdout" <;> by_cases h2 : f = "-" <;> simp [h1, h2]
+
+theorem openRead_stdin_iff (f : String) : openReadSource f = .stdin ↔ f = "" ∨ f = "stdin" ∨ f = "-" := by
+  unfold openReadSource stdinNames
+  by_cases h0 : f = "" <;> by_cases h1 : f = "stdin" <;> by_cases h2 : f = "-" <;> simp [h0, h1, h2]
+
+theorem openRead_default : openReadSource defaultInput = .stdin := by decide
+
+theorem predictOutput_default (printed : String) :
+    predictOutput defaultOutput printed = "exit=0\nstdout:\n" ++ printed ∧ predictOutput "-" printed = predictOutput defaultOutput printed := by
+  constructor <;> rfl
+
+theorem predictOutput_file (f printed : String) (h1 : f ≠ "stdout") (h2 : f ≠ "-") :
+    predictOutput f printed = outcomeInFile f printed := by
+  unfold predictOutput
+  rw [openWrite_file f h1 h2]
+
+theorem readTree_agrees (f : String) : readTreeAccepts f = Glue.readTreeAccepts f := by
+  unfold readTreeAccepts refusedTreeNames Glue.readTreeAccepts
+  simp
+
+theorem readTree_default : readTreeAccepts defaultInput = true ∧ readTreeAccepts "none" = false := by decide
+
+theorem formatCases_agree :
+    formatCases.all (fun p => p.1 == "*" || constName (PreRun.formatOf p.1) == p.2) = true ∧
+    (formatCases.lookup "*") = some (constName (PreRun.formatOf "any other text")) ∧
+    (formatCases.lookup PreRun.defaultFormat) = formatCases.lookup "*" := by decide
+
+theorem seedSentinel_agrees (s : Int) : PreRun.seedOf s = none ↔ s = seedSentinel := by
+  unfold PreRun.seedOf seedSentinel
+  by_cases h : s = -1 <;> simp [h]
+
+theorem sentinels_check : Gotree.Gen.C19Sentinels.rows = expectedRows ∧ Gotree.Gen.C19Sentinels.problems = [] := by
+  decide +kernel
+
+example : openWriteTarget "out.nw" = .file "out.nw" ∧ closesFile "out.nw" = true ∧ closesFile "stdout" = false := by decide
+
+end IO
 
 end Gotree.C19
